@@ -1081,6 +1081,17 @@ func genC08(g *G, sc *Scenario, tier string) {
 			sc.Ops = append(sc.Ops, Op{K: "batch", DS: ds, Ents: ents})
 		}
 		c.Pool = full
+		if viaTrigger && jobType == "incremental" && rd > 0 && g.P(0.5) {
+			// between two runs of the incremental trigger a client runs the same job as a fullsync through the
+			// HTTP run operation, and that run fails or is killed after it has turned the sink back to old versions
+			ms := map[string]any{"manual": true}
+			if g.P(0.5) {
+				ms["sinkFailAt"] = g.Range(2, 4)
+			} else {
+				ms["killPoint"], ms["killAt"] = "pipeline.full.afterBatch", g.Range(1, 3)
+			}
+			sc.Ops = append(sc.Ops, Op{K: "run", S: "job1", DS: "fullsync", M: ms})
+		}
 		spec := map[string]any{}
 		x := g.r.Float64()
 		// the HTTP run operation lets a client run a job as either type, whatever its trigger says
